@@ -13,6 +13,9 @@ from typing import Iterable, Optional, Sequence
 import clingo
 from clingo.ast import AST, ProgramBuilder, parse_string
 
+import re
+
+_INT = re.compile(r"^-?\d+$")
 MAX_MODELS = 4096
 SOLVE_TIMEOUT = 20.0
 
@@ -23,7 +26,8 @@ class SolveResult:
     models: list = field(default_factory=list)  # list of (frozenset[(name, arity, str)], cost tuple, frozenset[str] shown)
     messages: list = field(default_factory=list)  # (code name, text)
     error: str = ""
-    undefined: bool = False  # OperationUndefined / tuple ignored seen
+    undefined: bool = False  # OperationUndefined / tuple ignored (non-integer) seen
+    sumplus_ignored: int = 0  # negative integer weights ignored by #sum+ (defined semantics)
     wall: float = 0.0
 
     @property
@@ -58,7 +62,17 @@ def solve(
 
     def logger(code: clingo.MessageCode, msg: str) -> None:
         res.messages.append((code.name, msg))
-        if code == clingo.MessageCode.OperationUndefined or "tuple ignored" in msg:
+        if "tuple ignored" in msg:
+            # clingo reports a negative *integer* weight inside #sum+ with the same code and text as a non-integer
+            # weight.  The former is defined semantics (the tuple does not count) and stays inside the quantifier
+            # ("arithmetic is only applied to integers"); the latter discards the instance.
+            lines = [ln.strip() for ln in msg.splitlines() if ln.strip()]
+            first = lines[-1].split(",")[0].strip() if len(lines) > 1 else ""
+            if _INT.match(first):
+                res.sumplus_ignored += 1
+            else:
+                res.undefined = True
+        elif code == clingo.MessageCode.OperationUndefined:
             res.undefined = True
 
     args = ["0", "--opt-mode=enum"]
